@@ -9,7 +9,7 @@
 (* is then validated by Trace.tla, which re-derives every expected         *)
 (* outcome and the state after every step.                                 *)
 (***************************************************************************)
-EXTENDS MC_Endpoint, Json
+EXTENDS MC_Endpoint, Json, SequencesExt
 
 CONSTANT Depth
 VARIABLES h, done
@@ -34,6 +34,12 @@ Step   == Len(h) < Len(Prologue) + Depth /\ Next /\ h' = Append(h, CmdOf(out', L
 Finish == Len(h) = Len(Prologue) + Depth /\ ~done /\ done' = TRUE /\ UNCHANGED << vars, h >>
 GNext  == Step \/ Finish
 GSpec  == GInit /\ [][GNext]_<< vars, h, done >>
+
+(* the model's input alphabet, for the harness's transition tour: every (abstract state, action)  *)
+(* pair of this bounded model is then driven through the real code at least once              *)
+ASSUME PrintT("ALPHA " \o ToJson([ cfg |-> [c \in CtxIds |-> Cfg[c]], ctxs |-> SetToSeq(CtxIds),
+                                   packets |-> SetToSeq(Packets), eids |-> SetToSeq(EidVals),
+                                   uuids |-> SetToSeq(UuidVals) ]))
 
 Emit == done => PrintT("SCN " \o ToJson(h))
 =============================================================================
